@@ -90,7 +90,8 @@ class SourceTree:
             from . import canon, inline
             ref = canon.load_reference()
             self.renames = canon.canonicalize(self._asts, ref)
-            self.inlined = inline.inline_new_helpers(self._asts, ref)
+            self.inlined = inline.outline_vanished_helpers(self._asts, ref)
+            self.inlined += inline.inline_new_helpers(self._asts, ref)
             self.inlined += inline.inline_new_constants(self._asts, ref)
             self.inlined += inline.unroll_literal_loops(self._asts, ref)
             self.inlined += inline.normalize_idioms(self._asts, ref)
@@ -136,6 +137,16 @@ class SourceTree:
         for n in body:
             if isinstance(n, (ast.FunctionDef, ast.AsyncFunctionDef)) and n.name == name:
                 return n
+        if not clsname:
+            # a module-level function moved, unchanged, to another module of the package (a unique definition of that name)
+            found = [(p, n) for p in self.paths() for n in self.ast(p).body
+                     if isinstance(n, (ast.FunctionDef, ast.AsyncFunctionDef)) and n.name == name]
+            if len(found) == 1:
+                from . import canon
+                refu = (canon.load_reference() or {}).get(relpath, {}).get("fn|" + name)
+                if refu is not None and canon.sig_of(found[0][1]).shape == refu[0]:
+                    self.consulted.add(found[0][0])
+                    return found[0][1]
         raise AnchorMissing("function %s%s not found in %s" % (
             (clsname + ".") if clsname else "", name, relpath))
 
